@@ -21,6 +21,8 @@ type Request struct {
 	L    uint64 `json:"l"`
 	D    uint64 `json:"d"`
 	Text []byte `json:"text"`
+	Par  int    `json:"par,omitempty"` // >1: that many simultaneous CompileWarrior calls on the text
+	CapMiB int  `json:"cap_mib,omitempty"` // heap cap for this request (default 256)
 }
 
 type Response struct {
@@ -34,6 +36,7 @@ type Response struct {
 	ElapsedUs int64    `json:"elapsed_us"`
 	Leaked    []string `json:"leaked,omitempty"` // stacks of surviving gmars goroutines
 	OOM       bool     `json:"oom,omitempty"`
+	ParDiffer string   `json:"par_differ,omitempty"` // simultaneous calls disagreed
 }
 
 const (
